@@ -215,6 +215,10 @@ pub fn gen(prop: &str, tier: &str, seed: u64, out: &mut Vec<String>) {
                                 let sink = *r.pick(crate::gen2::SINKS);
                                 let fl2 = if r.chance(1, 2) { "sync" } else { "fsm" };
                                 out.push(format!("fragdecr {cs} {fl2} {sink} {b} {bs} {ql} {src} 0:0:$+x{tail} {}", 1 + r.below(200)));
+                                // and a stream that fails part-way: what has been stored by then must not depend on the
+                                // slicing or on where the reader suspended
+                                let bad = if r.chance(1, 2) { format!("0:0:{}", r.below(total + 1)) } else { format!("0:0:$~{}^{}", r.below(total + 1), 1 + r.below(255)) };
+                                out.push(format!("fragdecr {cs} {fl2} {sink} {b} {bs} {ql} {src} {bad} {}", 1 + r.below(200)));
                             }
                         }
                         // unfragmented transport as well (a reader that hands out everything it has)
